@@ -280,6 +280,25 @@ class Exec(Engine):
         if isinstance(v, VPairVal) and n == 2:
             return self.unpack(target, VTuple((VNodeVal(pfield(v.t, 'k')),
                                                VNodeVal(pfield(v.t, 'v')))), st)
+        if isinstance(v, VSeq):
+            outs = []
+            for s2, okk in self.branch(st, seq_len(v.t) == n):
+                if okk:
+                    cur = [(s2, NEXT, None)]
+                    for k, t in enumerate(target.elts):
+                        nxt = []
+                        for (s3, ctl, pl) in cur:
+                            if ctl != NEXT:
+                                nxt.append((s3, ctl, pl))
+                            else:
+                                nxt.extend(self.assign(t, self.nth(
+                                    v, z3.IntVal(k), s3), s3))
+                        cur = nxt
+                    outs.extend(cur)
+                else:
+                    outs.append((s2, EXC, VExc('ValueError', (),
+                                               target.lineno)))
+            return outs
         r = self.models.unpack(self, target, v, st)
         if r is not None:
             return r
